@@ -1,7 +1,7 @@
 //! The simulated world: issuers, holders (token slots), third-party signers, verifiers and the
 //! adversary that owns every byte string between two API calls. A `Scenario` is fully concrete
 //! (no PRNG is consulted while executing it); `generate` makes one from a seed.
-use crate::ast::{self, Alg, Block, PubKey, Rule};
+use crate::ast::{self, Alg, Block, Pred, PubKey, Rule, Scope, Term};
 use crate::gen::{Gen, GenCfg, Pool};
 use crate::keys::KeySpec;
 use crate::libeval::{self, Limits, Outcome};
@@ -165,6 +165,9 @@ pub struct Profile {
     pub errors: bool,
     pub force_v33: Option<bool>,
     pub ops_after_seal: bool,
+    /// some verifiers get a small fact budget (outcomes are then not comparable with R2, which
+    /// has no budgets: only for checks that compare the library with itself)
+    pub small_fact_limits: bool,
 }
 
 impl Profile {
@@ -177,6 +180,7 @@ impl Profile {
             errors: false,
             force_v33: None,
             ops_after_seal: false,
+            small_fact_limits: false,
         };
         match property {
             "C07" => {
@@ -197,6 +201,7 @@ impl Profile {
                 p.weights = [30, 15, 3, 3, 3, 45, 5];
                 p.errors = true;
                 p.p256 = 5;
+                p.small_fact_limits = true;
             }
             "C01" | "C15" => {
                 p.weights = [30, 20, 10, 5, 5, 5, 10];
@@ -437,7 +442,11 @@ pub fn generate(seed: u64, profile: &Profile) -> Scenario {
                 issuer: 0,
                 authorizer,
                 queries,
-                limits: Limits::generous(),
+                limits: if profile.small_fact_limits && rng.chance(1, 3) {
+                    Limits { max_facts: rng.range(3, 25) as u64, ..Limits::generous() }
+                } else {
+                    Limits::generous()
+                },
             }
         })
         .collect();
@@ -2021,6 +2030,18 @@ impl<'a> Run<'a> {
         if self.mon.c03 {
             self.check_c03(&biscuit, token, verifier, &spec);
         }
+        // C12: what the token means to a verifier is what its authors wrote (R2 evaluates the
+        // authors' own ASTs: every symbol and key reference must have resolved to the same thing)
+        if self.mon.c12 {
+            self.check_meaning("C12", "meaning-differs-from-written", &biscuit, token, verifier, &spec);
+        }
+        // C07: a third-party block's facts are seen by exactly the scopes that name its key, on
+        // every route to an evaluated authorizer; probe queries name every key of the scenario
+        if self.mon.c07 && self.slots[token].ghost.iter().any(|g| g.external.is_some()) {
+            let mut probed = spec.clone();
+            probed.queries.extend(self.key_probe_queries(token));
+            self.check_meaning("C07", "tp-facts-visibility", &biscuit, token, verifier, &probed);
+        }
         if self.mon.c11 {
             self.check_c11(&biscuit, token, verifier, &spec);
         }
@@ -2034,6 +2055,48 @@ impl<'a> Run<'a> {
                 e.outcome.map(|o| o.class()).unwrap_or_else(|| "buildfail".to_string())
             ));
         }
+    }
+
+    /// the C04 comparison with R2, reported under another property's name
+    fn check_meaning(&mut self, property: &str, class: &str, biscuit: &Biscuit, token: usize, verifier: usize, spec: &VerifierSpec) {
+        let before = self.violations.len();
+        let keys = self.mon.hash_keys;
+        self.check_c04(biscuit, token, verifier, spec);
+        let _ = keys;
+        for v in self.violations[before..].iter_mut() {
+            v.property = property.to_string();
+            v.class = format!("{class}-{}", v.class);
+        }
+    }
+
+    /// `q(..) <- p(..) trusting <key>` for every key of the scenario and predicates of the
+    /// token's third-party blocks (facts and rule heads)
+    fn key_probe_queries(&self, token: usize) -> Vec<Rule> {
+        let mut preds: BTreeSet<(String, usize)> = BTreeSet::new();
+        for g in self.slots[token].ghost.iter().filter(|g| g.external.is_some()) {
+            for f in &g.ast.facts {
+                preds.insert((f.name.clone(), f.terms.len()));
+            }
+            for r in &g.ast.rules {
+                preds.insert((r.head.name.clone(), r.head.terms.len()));
+            }
+        }
+        let mut keys: Vec<crate::ast::PubKey> = self.scn.signers.iter().map(|s| s.public()).collect();
+        keys.sort();
+        keys.dedup();
+        let mut out = Vec::new();
+        for (name, arity) in preds.into_iter().filter(|(_, a)| *a > 0).take(3) {
+            let vars: Vec<Term> = (0..arity).map(|i| Term::Var(format!("p{i}"))).collect();
+            for k in &keys {
+                out.push(Rule {
+                    head: Pred { name: "q".to_string(), terms: vars.clone() },
+                    body: vec![Pred { name: name.clone(), terms: vars.clone() }],
+                    exprs: vec![],
+                    scopes: vec![Scope::Key(k.clone())],
+                });
+            }
+        }
+        out
     }
 
     fn check_c04(&mut self, biscuit: &Biscuit, token: usize, verifier: usize, spec: &VerifierSpec) {
@@ -2060,13 +2123,16 @@ impl<'a> Run<'a> {
         }));
         for k in 0..self.mon.hash_keys.max(1) {
             let hk = self.scn.hash_key.wrapping_add(k as u64);
-            let got = libeval::evaluate(Some(biscuit), &spec.authorizer, &spec.queries, hk, spec.limits, true);
+            // every way of getting to an evaluated authorizer must agree with the semantics
+            let route = libeval::ROUTES[(k + token + verifier) % libeval::ROUTES.len()];
+            let got = libeval::evaluate_via(route, Some(biscuit), &spec.authorizer, &spec.queries, hk, spec.limits, true);
             self.stats.oracle_evals += 1;
+            self.stats.bump(&format!("route.{route:?}"));
             if let Err(e) = &got.build {
                 self.violate(
                     "C04",
                     "build-failed",
-                    format!("slot {token} verifier {verifier}: authorizer cannot be built for a legitimate token: {e}"),
+                    format!("slot {token} verifier {verifier}: authorizer cannot be built for a legitimate token ({route:?}): {e}"),
                 );
                 return;
             }
@@ -2076,7 +2142,7 @@ impl<'a> Run<'a> {
                     "C04",
                     "decision-differs-from-model",
                     format!(
-                        "slot {token} verifier {verifier} hash key {hk}: library {:?}, semantics {:?}",
+                        "slot {token} verifier {verifier} hash key {hk} ({route:?}): library {:?}, semantics {:?}",
                         outcome, want
                     ),
                 );
@@ -2173,8 +2239,12 @@ impl<'a> Run<'a> {
             Ok(b) => b,
             Err(_) => return,
         };
-        let e_child = libeval::evaluate(Some(child), &spec.authorizer, &spec.queries, self.scn.hash_key, spec.limits, true);
         let e_parent = libeval::evaluate(Some(&parent_b), &spec.authorizer, &spec.queries, self.scn.hash_key, spec.limits, true);
+        // the extended token evaluated directly and through one of the snapshot routes: neither
+        // may grant what the original was refused
+        let second = libeval::ROUTES[1 + (token + verifier) % (libeval::ROUTES.len() - 1)];
+        for route in [libeval::Route::Direct, second] {
+        let e_child = libeval::evaluate_via(route, Some(child), &spec.authorizer, &spec.queries, self.scn.hash_key, spec.limits, true);
         let (oc, op) = match (&e_child.outcome, &e_parent.outcome) {
             (Some(a), Some(b)) => (a.clone(), b.clone()),
             _ => {
@@ -2196,7 +2266,7 @@ impl<'a> Run<'a> {
                 "C03",
                 "attenuation-grants",
                 format!(
-                    "slot {token} (parent {parent}) verifier {verifier}: extended token {:?} but original {:?}; new block: {}",
+                    "slot {token} (parent {parent}) verifier {verifier} ({route:?}): extended token {:?} but original {:?}; new block: {}",
                     oc, op, new_block.ast.source().replace('\n', " ")
                 ),
             );
@@ -2239,9 +2309,10 @@ impl<'a> Run<'a> {
                 self.violate(
                     "C03",
                     "attenuation-changes-query",
-                    format!("slot {token} verifier {verifier} query {i}: {:?} vs {:?}", qc.0, qp.0),
+                    format!("slot {token} verifier {verifier} query {i} ({route:?}): {:?} vs {:?}", qc.0, qp.0),
                 );
             }
+        }
         }
     }
 }
